@@ -825,7 +825,9 @@ pub fn check_views(api: &str, ether_door: Option<u16>, input_len: usize, want: &
     }
     // innermost ether payload
     let linkish: Option<&RLayer> = want.iter().filter(|l| matches!(l.kind, RK::Eth2 | RK::Sll | RK::Vlan | RK::Macsec)).last();
-    let macsec_sl = want.iter().any(|l| l.kind == RK::Macsec && l.fields.iter().any(|f| f.0 == "short_len" && f.1 != 0));
+    // a MACsec short length may be named as length source only if it really is what ends the MACsec payload (it is set
+    // and the slice holds the bytes it announces); a payload that was cut at the slice end has the slice as source
+    let macsec_sl = want.iter().any(|l| l.kind == RK::Macsec && l.pay_srcs.contains(&Src::MacsecSl) && !l.incomplete);
     let want_ep: Option<Option<(u16, (usize, usize))>> = match linkish {
         Some(l) => match l.next {
             Next::Ether(t) => Some(Some((t, l.pay))),
@@ -845,7 +847,7 @@ pub fn check_views(api: &str, ether_door: Option<u16>, input_len: usize, want: &
                     out.push((format!("derived-view:{}:ether_payload", api), format!("{}: ether_payload() = ether type {:#06x} range {:?}, the innermost link layer says {:#06x} {:?}", api, gt, gr, t, r)));
                 }
                 if !(*src == Src::Slice || (*src == Src::MacsecSl && macsec_sl)) {
-                    out.push((format!("derived-view:{}:ether_payload:len_source", api), format!("{}: ether_payload().len_source = {:?} without such a length field in front", api, src)));
+                    out.push((format!("derived-view:{}:ether_payload:len_source", api), format!("{}: ether_payload().len_source = {:?} but no such length field in front is what ends the payload (not set, or the slice ends before the announced length)", api, src)));
                 }
             }
             (w, g) => out.push((format!("derived-view:{}:ether_payload:presence", api), format!("{}: ether_payload() = {:?}, expected {:?}", api, g, w))),
